@@ -240,9 +240,20 @@ func init() {
 }
 
 func depthChecks(c *Ctx) {
-	rec := []string{"verif.s0.N", "verif.mx.Sub", "verif.mxtag.Tags", "verif.xb.Tree", "verif.xa.Holder", "verif.mxmap.V", "verif.nm.Locals"}
+	// (type, shape of the recursion that is followed)
+	type probe struct{ t, via string }
+	var rec []probe
+	for _, t := range []string{"verif.s0.N", "verif.mx.Sub", "verif.mxtag.Tags", "verif.xb.Tree", "verif.xa.Holder", "verif.mxmap.V", "verif.nm.Locals"} {
+		rec = append(rec, probe{t, ""})
+	}
+	for _, t := range []string{"goproto.proto.test3.TestAllTypes", "A", "verif.xb.Tree", "verif.mx.Sub", "verif.s0.N", "verif.nm.Locals"} {
+		for _, via := range []string{"map", "list", "oneof"} {
+			rec = append(rec, probe{t, via})
+		}
+	}
 	n := 0
-	for _, t := range rec {
+	for _, pr := range rec {
+		t, via := pr.t, pr.via
 		found := false
 		for _, x := range c.S.Types {
 			if x.Name == t {
@@ -253,11 +264,14 @@ func depthChecks(c *Ctx) {
 			continue
 		}
 		depths := []int{1, 100, 9998, 9999, 10000, 10001, 20000}
+		if via != "" {
+			depths = []int{100, 10000, 10001, 12001}
+		}
 		if c.Thorough() {
 			depths = append(depths, 100000, 1000000)
 		}
 		for _, d := range depths {
-			args := []string{"deep", "--type", t, "--depth", fmt.Sprint(d)}
+			args := []string{"deep", "--type", t, "--depth", fmt.Sprint(d), "--via", via}
 			if d >= 100000 {
 				args = append(args, "--maxstack", "67108864")
 			}
